@@ -17,7 +17,7 @@ from ..core import Violation, HarnessError, stream, sut, exc_name
 ID = "C10"
 UNSET = "<unset>"
 
-NAMES = ["c", "al", "ad", "l", "d", "s", "fac", "dyn", "t", "u", "inst"]
+NAMES = ["c", "al", "ad", "l", "d", "s", "fac", "dyn", "t", "u", "inst", "ts", "td", "us", "tn"]
 
 DYN = types.ModuleType("simtraits.dyn")
 sys.modules["simtraits.dyn"] = DYN
@@ -41,6 +41,7 @@ def declared_default(cls_name, name):
     d = {
         "c": 3, "al": [1, 2], "ad": {"k": 1}, "l": [1, 2, 3], "d": {"a": 1}, "s": {1, 2},
         "fac": {"made": True}, "dyn": ["dyn", cls_name], "t": ([], 0), "u": [], "inst": [7],
+        "ts": (set(), 0), "td": ({}, 0), "us": set(), "tn": ("", (set(), 0)),
     }
     if cls_name == "B":
         d["l"] = [9]
@@ -100,7 +101,8 @@ class Prop:
                       "slot": r.randrange(2)}
             elif x < 0.88:
                 op = {"k": r.choice(["add_trait", "add_trait", "remove_trait"]), "o": o,
-                      "n": r.randrange(3)}
+                      "n": r.randrange(3),
+                      "what": r.choice(["int", "int", "list", "list", "existing"])}
             elif x < 0.91:
                 op = {"k": "gc"}
             elif x < 0.94:
@@ -150,6 +152,8 @@ class Prop:
                 "d": Dict(Str, Int, {"a": 1}), "s": Set(Int, {1, 2}),
                 "fac": Any(factory=factory), "dyn": Any(),
                 "t": Tuple(List(Int), Int), "u": Union(List(Int), Int),
+                "ts": Tuple(Set(Int), Int), "td": Tuple(Dict(Str, Int), Int),
+                "us": Union(Set(Int), None), "tn": Tuple(Str, Tuple(Set(Int), Int)),
                 "inst": Instance(list, ([7],)),
                 "_dyn_default": mk_dyn("A"), "_c_changed": _c_changed,
                 "_anytrait_changed": _anytrait_changed,
@@ -281,7 +285,7 @@ class Prop:
                                             "first read of %s.%s reached handler %r"
                                             % (cn, name, hlog[0]), i)
                     n = op["v"]
-                    tgt = v[0] if (isinstance(v, tuple) and v and isinstance(v[0], list)) else v
+                    tgt = first_mutable(v)
                     if isinstance(tgt, list):
                         _, e = sut(tgt.append, n)
                     elif isinstance(tgt, dict):
@@ -311,11 +315,17 @@ class Prop:
                         m[name] = plain(o.__dict__[name])
                 elif k in ("reg", "unreg"):
                     name = op["name"]
+                    if target["extras"] and op["slot"] == 1 and op["mech"] == "otc":
+                        # a handler on an added instance trait (and its items trait)
+                        ex = sorted(target["extras"])[0]
+                        name = ex + ("_items" if target.get("extra_kind", {}).get(ex) == "list"
+                                     else "")
                     key = (name, op["mech"], op["slot"])
                     have = key in target["handlers"]
                     if (k == "reg") != have:
                         if k == "reg":
-                            h = mk_dyn_handler(op["mech"], hlog, env)
+                            h = mk_dyn_handler(op["mech"], hlog, env,
+                                               o.__dict__["_sim_serial"])
                             target["handlers"][key] = h
                         else:
                             h = target["handlers"].pop(key)
@@ -330,7 +340,19 @@ class Prop:
                 elif k == "add_trait":
                     n = "extra%d" % op["n"]
                     if n not in target["extras"]:
-                        _, e = sut(o.add_trait, n, Int(5))
+                        what = op.get("what", "int")
+                        if what == "list":
+                            # a container trait: add_trait also adds <name>_items
+                            from traits.api import List as _List
+                            tdef = _List(Int, [5])
+                        elif what == "existing":
+                            # an existing trait definition object: the class's own 'c'
+                            # (o.trait("c") would be this instance's copy-on-write clone)
+                            tdef = classes[cn].class_traits()["c"]
+                        else:
+                            tdef = Int(5)
+                        target["extra_kind"] = dict(target.get("extra_kind", {}), **{n: what})
+                        _, e = sut(o.add_trait, n, tdef)
                         if e is not None:
                             raise Violation("C10.add_trait", "add_trait raised %r" % (e,), i)
                         target["extras"].add(n)
@@ -346,7 +368,13 @@ class Prop:
                     n = "extra%d" % op["n"]
                     v, e = sut(getattr, o, n)
                     if n in target["extras"]:
-                        if e is not None or v != 5:
+                        what = target.get("extra_kind", {}).get(n, "int")
+                        want = {"int": 5, "list": [5], "existing": 3 if cn == "A" else 4}[what]
+                        if what == "list" and e is None:
+                            # mutate it (reaches <name>_items handlers of THIS instance only)
+                            sut(v.append, 6)
+                            sut(v.pop)
+                        if e is not None or (list(v) if isinstance(v, list) else v) != want:
                             raise Violation("C10.add_trait", "instance trait %s reads %r / %r"
                                             % (n, v, e), i)
                     elif not isinstance(e, AttributeError):
@@ -360,6 +388,12 @@ class Prop:
                     raise Violation("C10.foreign-handler-call",
                                     "%s on one instance called handler %r of another object"
                                     % (k, rec), i)
+                if len(rec) > 3 and rec[3] != target["obj"].__dict__["_sim_serial"]:
+                    raise Violation("C10.foreign-handler-call",
+                                    "%s on instance #%d called a handler that was registered on "
+                                    "instance #%d only: %r"
+                                    % (k, target["obj"].__dict__["_sim_serial"], rec[3], (rec[0], rec[2])),
+                                    i)
             # ---- default methods run at most once per (instance, attribute)
             for key, n in calls.items():
                 if isinstance(key, tuple) and key[0] is not None and n > 1:
@@ -404,6 +438,14 @@ class Prop:
             return ({"x"}, False) if bad else ({n}, True)
         if name == "t":
             return ((1, 2, 3), False) if bad else (([n], n), True)
+        if name == "ts":
+            return (({"x"}, 1), False) if bad else (({n}, n), True)
+        if name == "td":
+            return (({1: 1}, 1), False) if bad else (({"q": n}, n), True)
+        if name == "us":
+            return ("x", False) if bad else (({n} if op.get("alt") else None), True)
+        if name == "tn":
+            return ((1, 2), False) if bad else (("s", ({n}, n)), True)
         if name == "u":
             return ("x", False) if bad else (([n] if op.get("alt") else n), True)
         if name == "inst":
@@ -424,8 +466,8 @@ class Prop:
                                     "an operation on another instance?)"
                                     % (rec["cls"], name, plain(cur) if cur is not UNSET else cur,
                                        want), step)
-                for part in (cur, cur[0] if isinstance(cur, tuple) and cur else None):
-                    if isinstance(part, (list, dict, set)):
+                for part in all_mutables(cur):
+                    if True:
                         if id(part) in seen and seen[id(part)] is not o:
                             raise Violation("C10.shared-default",
                                             "two instances hold the very same %s object for %s"
@@ -478,15 +520,38 @@ class Prop:
                 "cells_total": 4 * len(NAMES) + 8}
 
 
-def mk_dyn_handler(mech, hlog, env):
+def first_mutable(v):
+    """The first list/dict/set found in v (looking inside tuples)."""
+    if isinstance(v, (list, dict, set)):
+        return v
+    if isinstance(v, tuple):
+        for x in v:
+            m = first_mutable(x)
+            if m is not None:
+                return m
+    return None
+
+
+def all_mutables(v):
+    if isinstance(v, (list, dict, set)):
+        yield v
+    elif isinstance(v, tuple):
+        for x in v:
+            for m in all_mutables(x):
+                yield m
+
+
+def mk_dyn_handler(mech, hlog, env, owner):
+    """A handler that records the object it is called for and the serial number
+    of the instance it was registered on."""
     if mech == "otc":
         def h(obj, name, old, new):
             env.point("h:otc")
-            hlog.append(("otc", id(obj), name))
+            hlog.append(("otc", id(obj), name, owner))
     else:
         def h(event):
             env.point("h:obs")
-            hlog.append(("obs", id(event.object), event.name))
+            hlog.append(("obs", id(event.object), event.name, owner))
     return h
 
 
